@@ -182,8 +182,10 @@ def run(module, cfg_kwargs, workers=1, on_vec=None, timeout=3600, simulate=None,
         res['returncode'] = proc.returncode
         if not res['ok'] and not res['violated']:
             # property violation / postcondition / genuine failure
-            if any('Temporal properties were violated' in e or 'Action property' in e or
-                   'is violated' in e for e in res['errors']):
+            if any('Postcondition' in e and 'is false' in e for e in res['errors']):
+                res['violated'].append('postcondition')
+            elif any('Temporal properties were violated' in e or 'Action property' in e or
+                     'is violated' in e for e in res['errors']):
                 res['violated'].append('property')
             elif simulate and proc.returncode == 0:
                 res['ok'] = True
